@@ -5,6 +5,13 @@ import random
 from vlib import core
 from vlib.core import cz, copt, clist, cbool
 
+MANIFEST = dict(
+    text='Theorems (Coq, all histories): restart_state.step as translated from common.py on every run equals the model; 0 <= R <= max_restarts; inside one window exactly the remaining budget is admitted and the next step raises; a step after the window expired or after an ack starts afresh. Correspondence of the real restart_state on random histories.',
+    note='Trusted: Coq kernel, translator, PyVal semantics; integer clock (float rounding not modelled); monotonic() != 0.',
+    technique='Coq proof over translator-regenerated kernel + differential correspondence',
+    ref='5.11',
+)
+
 HEADER = '''From Coq Require Import ZArith List Bool.
 From BV Require Import Lib.Cases Model.Restart.
 Import ListNotations. Open Scope Z_scope.
@@ -68,9 +75,8 @@ def correspond(res, n):
 
 
 def run(res):
-    trans = core.translate()
-    build = res.proof_step('Props/C11.v', extra_targets=['Model/Restart.vo'],
-                           kernels_needed=['K_restart'], trans=trans)
+    res.proof_step('Props/C11.v', extra_targets=['Model/Restart.vo'],
+                           kernels_needed=['K_restart'])
     n = 300 if res.tier == 'quick' else 20000
     if res.broken:
         n = max(n, 5000)      # failing-input search
